@@ -87,6 +87,19 @@ MUTANTS = {
     "dep_vs_class_none": ("dependent.py", "        elif subclasscheck(other, self.bound) or subclasscheck(\n            self.bound, other\n        ):\n            return Order.LESS", "        elif subclasscheck(other, self.bound):\n            return Order.LESS", ["C12"]),
     "typeorder_no_reflect": ("mro.py", "        return result.opposite()\n\n    o1 = get_origin(t1)", "        return result\n\n    o1 = get_origin(t1)", ["C12"]),
     "merge_less_wins": ("mro.py", "        elif not (orders - {Order.LESS, Order.SAME}):\n            return Order.LESS", "        elif Order.LESS in orders:\n            return Order.LESS", ["C12"]),
+    # ---- C10 / C11
+    "fallthrough_raises": ("recode.py", '    inject["FALLTHROUGH"] = (next_call and next_call[0]) or raise_error', '    inject["FALLTHROUGH"] = raise_error', ["C10"]),
+    "force_exclusive": ("recode.py", "    if len(handlers) == 1:\n        exclusive = True", "    exclusive = True", ["C10"]),
+    "table_threshold_2": ("recode.py", "if disjoint and len(featured) < 4:", "if disjoint and len(featured) < 2:", ["C10", "C11"]),
+    "table_threshold_40": ("recode.py", "if disjoint and len(featured) < 4:", "if disjoint and len(featured) < 40:", ["C10", "C11"]),
+    "equals_is": ("dependent.py", 'return CodeGen("({arg} == {p})", p=self.parameter)', 'return CodeGen("({arg} is {p})", p=self.parameter)', ["C11", "C10"]),
+    "product_no_len": ("dependent.py", '        checks = ["len({arg}) == {n}"]', '        checks = ["True"]', ["C11"]),
+    "dep_guard_dropped": ("dependent.py", "        return isinstance(other, self.bound) and self.check(other)", "        return self.check(other)", ["C11"]),
+    "union_guard_dropped": ("dependent.py", "    if isinstance(typ, DependentType) and bound is not None:", "    if False:", ["C10", "C11"]),
+    "dep_supertype_any": ("dependent.py", "        elif subclasscheck(other, self.bound):\n            return True\n        else:\n            return False", "        else:\n            return True", ["C10"]),
+    "keys_first_only": ("dependent.py", "        return list(self.parameters)", "        return [self.parameter]", ["C10", "C11"]),
+    "overlap_keeps_table": ("recode.py", "                    elif disjoint:\n                        keyexpr", "                    elif True:\n                        keyexpr", ["C10", "C11"]),
+    "conj_drops_second": ("recode.py", '        conj = " and ".join(codes)', '        conj = " and ".join(codes[:1])', ["C10", "C01"]),
     # ---- C17
     "ext_first_base_only": ("core.py", "                for other in others:\n                    prev.add_mixins(other)\n", "", ["C17"]),
     "ext_no_copy": ("core.py", "                prev = prev.copy()\n                for other in others:", "                for other in others:", ["C17"]),
